@@ -24,7 +24,11 @@ def exc_key(e, tb=None):
         site = frs[-1] if frs else None
     if site is None:
         return {'exc': type(e).__name__, 'func': '?', 'line': '?'}
-    return {'exc': type(e).__name__, 'func': site.name, 'line': re.sub(r'\s+', ' ', (site.line or '').strip())[:120]}
+    k = {'exc': type(e).__name__, 'func': site.name, 'line': re.sub(r'\s+', ' ', (site.line or '').strip())[:120]}
+    m = re.match(r"Mnemonic '([^']*)' unknown", str(e))
+    if m:
+        k['name'] = m.group(1)           # which mnemonic has no AT&T name (the class is per mnemonic)
+    return k
 
 
 _mn = None
